@@ -1,5 +1,6 @@
 import NfpmModel.Lemmas.NameLemmas
 import NfpmModel.Generated.G3Types
+import NfpmModel.Lemmas.ModeLemmas
 /-
   C01  Payload fidelity: every format ships exactly what the contents declare.
 
@@ -45,12 +46,97 @@ theorem debMode_plain (fm : Nat) (h1 : hasBit fm modeSetuidBit = false) (h2 : ha
     (h3 : hasBit fm modeStickyBit = false) : debMode fm = fm &&& 0o7777 := by
   simp [debMode, h1, h2, h3]
 
+/-- for a mode without Go's own special bits, the permission bits it stands for are its low twelve -/
+theorem unixPerm_plain (c : Content) (h : EntryOK c) : unixPerm (cinfo c).mode = (cinfo c).mode &&& 0o7777 :=
+  debMode_plain _ h.noSetuidBit h.noSetgidBit h.noStickyBit
+
 theorem and_7777_idem (n : Nat) : (n &&& 0o7777) &&& 0o7777 = n &&& 0o7777 := by
   rw [Nat.and_assoc]; rfl
 
 theorem tarTime_set (t : Int) (h : isZeroT t = false) : tarTime t = t := by simp [tarTime, h]
 
 theorem mtimeGet_set (now t : Int) (h : isZeroT t = false) : mtimeGet now [t] = t := by simp [mtimeGet, h]
+
+/-! ### modes read from the build host (after fix 2: files.unixModeBits) -/
+section SourceModes
+open Nfpm.ModeLemmas
+/-- **a mode read from the build host carries none of io/fs's own special bits into the plan** (after fix: files.unixModeBits) -/
+theorem source_mode_no_go_bits (m umask : Nat) :
+    hasBit (andNot (unixModeBits m) umask) modeSetuidBit = false
+    ∧ hasBit (andNot (unixModeBits m) umask) modeSetgidBit = false
+    ∧ hasBit (andNot (unixModeBits m) umask) modeStickyBit = false := by
+  refine ⟨?_, ?_, ?_⟩
+  · rw [show modeSetuidBit = 2 ^ 23 from rfl, hasBit_pow, testBit_andNot, unixModeBits_testBit]; simp
+  · rw [show modeSetgidBit = 2 ^ 22 from rfl, hasBit_pow, testBit_andNot, unixModeBits_testBit]; simp
+  · rw [show modeStickyBit = 2 ^ 20 from rfl, hasBit_pow, testBit_andNot, unixModeBits_testBit]; simp
+
+/-- the st_mode permission bits of an io/fs mode -/
+def stPerm (m : Nat) : Nat :=
+  (m &&& 0o7777) ||| (if m.testBit 23 then 0o4000 else 0) ||| (if m.testBit 22 then 0o2000 else 0)
+    ||| (if m.testBit 20 then 0o1000 else 0)
+
+/-- … and the permission bits it stands for are the source's – set-user-ID, set-group-ID and sticky included – minus
+    the umask -/
+theorem source_mode_perm (m umask : Nat) :
+    unixPerm (andNot (unixModeBits m) umask) = andNot (stPerm m) umask := by
+  obtain ⟨h1, h2, h3⟩ := source_mode_no_go_bits m umask
+  unfold unixPerm
+  rw [show debMode (andNot (unixModeBits m) umask) = andNot (unixModeBits m) umask &&& 0o7777 by
+    simp [debMode, h1, h2, h3]]
+  apply Nat.eq_of_testBit_eq
+  intro i
+  simp only [Nat.testBit_and, testBit_andNot, unixModeBits_testBit, stPerm, Nat.testBit_or, testBit_ite,
+    show (0o7777 : Nat) = 2 ^ 12 - 1 by decide,
+    show (0o4000 : Nat) = 2 ^ 11 by decide, show (0o2000 : Nat) = 2 ^ 10 by decide, show (0o1000 : Nat) = 2 ^ 9 by decide,
+    Nat.testBit_two_pow_sub_one, Nat.testBit_two_pow]
+  by_cases h : i < 12
+  · have a : ¬ 23 = i := by omega
+    have b : ¬ 22 = i := by omega
+    have c : ¬ 20 = i := by omega
+    simp [h, a, b, c]
+  · have a : ¬ 11 = i := by omega
+    have b : ¬ 10 = i := by omega
+    have c : ¬ 9 = i := by omega
+    simp [h, a, b, c]
+
+/-- the mode a content declares (directories default to 0755) -/
+def declaredMode (c : Content) : Nat :=
+  let ty := if c.type = [] then T.file else c.type
+  if isDirType ty && (c.info.getD {}).mode == 0 then 0o755 else (c.info.getD {}).mode
+
+/-- **where a planned entry's mode comes from** (Content.WithFileInfoDefaults): the declared one verbatim, or – when none
+    is declared – the source's mode with its special bits in configuration position, minus the umask -/
+theorem withDefaults_mode (O : Oracle) (umask : Nat) (mtime : Int) (c : Content) :
+    (cinfo (withDefaults O umask mtime c)).mode = declaredMode c
+    ∨ (declaredMode c = 0 ∧ ∃ s, O.stat c.src = some s ∧
+        (cinfo (withDefaults O umask mtime c)).mode = andNot (unixModeBits s.mode) umask) := by
+  unfold withDefaults cinfo declaredMode
+  simp only [Option.getD_some]
+  generalize (if c.type = [] then T.file else c.type) = ty
+  generalize (if (isDirType ty && (c.info.getD {}).mode == 0) = true then 0o755 else (c.info.getD {}).mode) = dm
+  split
+  · rename_i s hs
+    by_cases h0 : dm = 0
+    · right
+      refine ⟨h0, s, ite_some hs, ?_⟩
+      simp [h0]
+    · left; simp [h0]
+  · left; rfl
+
+/-- so a planned entry that declares no mode never carries io/fs's own special bits, and denotes the source's
+    permission bits minus the umask -/
+theorem planned_source_mode (O : Oracle) (umask : Nat) (mtime : Int) (c : Content) (s : Stat)
+    (hm : (cinfo (withDefaults O umask mtime c)).mode = andNot (unixModeBits s.mode) umask) :
+    unixPerm (cinfo (withDefaults O umask mtime c)).mode = andNot (stPerm s.mode) umask
+    ∧ hasBit (cinfo (withDefaults O umask mtime c)).mode modeSetuidBit = false
+    ∧ hasBit (cinfo (withDefaults O umask mtime c)).mode modeSetgidBit = false
+    ∧ hasBit (cinfo (withDefaults O umask mtime c)).mode modeStickyBit = false := by
+  rw [hm]
+  exact ⟨source_mode_perm _ _, source_mode_no_go_bits _ _⟩
+
+example : stPerm (2 ^ 23 + 0o755) = 0o4755 ∧ unixModeBits (2 ^ 23 + 0o755) = 0o4755
+    ∧ unixModeBits (2 ^ 31 + 2 ^ 20 + 0o777) = 2 ^ 31 + 0o1777 := by decide
+end SourceModes
 
 /-- the member list of a tar format with times as archive/tar stores them -/
 def stored (m : Member) : Member := { m with mtime := tarTime m.mtime }
@@ -72,6 +158,7 @@ theorem deb_member_denotes (now imt : Int) (c : Content) (h : EntryOK c) :
   obtain ⟨x, hx, hdst⟩ := h.shape
   have hmode := debMode_plain _ h.noSetuidBit h.noSetgidBit h.noStickyBit
   unfold debMember1 denote1 noPayload
+  simp only [unixPerm_plain c h]
   by_cases hg : c.type = T.ghost
   · simp [hg]
   · by_cases hd : isDirType c.type = true
@@ -111,6 +198,7 @@ theorem ipk_member_denotes (now imt : Int) (c : Content) (h : EntryOK c) (ht : c
     (ipkMember1 now imt c).map (fun m => logical1 .ipk (stored m)) = denote1 .ipk c := by
   obtain ⟨x, hx, hdst⟩ := h.shape
   unfold ipkMember1 denote1 noPayload
+  simp only [unixPerm_plain c h]
   rcases ht with hd | hs | hf
   · have hname := pathOfName_explicit .ipk (Or.inr rfl) true x hx
     simp only [hd] at hdst
@@ -146,6 +234,7 @@ theorem apk_member_denotes (c : Content) (h : EntryOK c) (ht : commonPayloadType
     some (logical1 .apk (stored (apkMember1 c))) = denote1 .apk c := by
   obtain ⟨x, hx, hdst⟩ := h.shape
   unfold apkMember1 denote1 noPayload
+  simp only [unixPerm_plain c h]
   rcases ht with hd | hs | hf
   · have hname := pathOfName_relative .apk (Or.inl rfl) true x hx
     simp only [hd] at hdst
@@ -214,6 +303,7 @@ theorem arch_member_denotes (c : Content) (h : EntryOK c) (ht : commonPayloadTyp
     some (logical1 .arch (stored (archMember1 c))) = denote1 .arch c := by
   obtain ⟨x, hx, hdst⟩ := h.shape
   unfold archMember1 denote1 noPayload
+  simp only [unixPerm_plain c h]
   rcases ht with hd | hs | hf
   · have hname := pathOfName_relative .arch (Or.inr rfl) true x hx
     simp only [hd] at hdst
@@ -371,6 +461,7 @@ theorem rpm_member_denotes (now imt : Int) (c : Content) (h : EntryOK c) (hr : R
   have hghost : c.type ≠ T.ghost := by
     intro e; simp [noPayload, e] at hn
   unfold rpmMember denote1
+  simp only [unixPerm_plain c h]
   simp only [hpk, Bool.false_eq_true, if_false, if_neg hr.notImplicit, if_neg hroot, hn, hib, Bool.and_false]
   by_cases hs : c.type = T.symlink
   · have hd : isDirType c.type = false := by rw [hs]; decide
